@@ -233,12 +233,12 @@ Proof.
   - assumption.
 Qed.
 
-Lemma with_sare_stable : forall r0 lab wf block st s3 st3 ob out,
+Lemma with_same_stable : forall wf block s st s3 st3 ob out,
   (forall s st s' st' o, block s st = (s', st', o) -> stable st st') ->
-  with_sare r0 lab wf block st = (s3, st3, ob, out) -> stable st st3.
+  with_same wf block s st = (s3, st3, ob, out) -> stable st st3.
 Proof.
-  intros r0 lab wf block st s3 st3 ob out HB H. unfold with_sare in H.
-  destruct (sare_enter wf (sare_new r0 lab st) st) as [[s1 st1] o1] eqn:E.
+  intros wf block s st s3 st3 ob out HB H. unfold with_same in H.
+  destruct (sare_enter wf s st) as [[s1 st1] o1] eqn:E.
   apply sare_enter_stable in E. destruct o1 as [|j].
   - destruct (block s1 st1) as [[s2 st2] o2] eqn:B. apply HB in B.
     rewrite exit_equiv in H.
@@ -246,6 +246,10 @@ Proof.
     inversion H; subst. eapply stable_trans; [eassumption|]. eapply stable_trans; eassumption.
   - inversion H; subst. assumption.
 Qed.
+Lemma with_sare_stable : forall r0 lab wf block st s3 st3 ob out,
+  (forall s st s' st' o, block s st = (s', st', o) -> stable st st') ->
+  with_sare r0 lab wf block st = (s3, st3, ob, out) -> stable st st3.
+Proof. intros r0 lab wf block st s3 st3 ob out HB H. exact (with_same_stable _ _ _ _ _ _ _ _ HB H). Qed.
 
 Lemma stable_push : forall i a b, stable (push i a) b -> stable a (pop b).
 Proof.
@@ -256,7 +260,7 @@ Qed.
    and leaves the stack of handled exceptions as it found it — for every body (induction, no bound) *)
 Lemma exec_stable : forall b s st s' st' out, exec b s st = (s', st', out) -> stable st st'.
 Proof.
-  induction b as [|c k|c k l|v|a IHa b IHb|a IHa h IHh|r0 l b IHb|r0 b IHb|l|l|p l b IHb|p a l];
+  induction b as [|c k|c k l|v|a IHa b IHb|a IHa h IHh|r0 l b IHb|r0 b IHb|l|l|p l b IHb|p a l|l b IHb|];
     intros s st s' st' out H; cbn [exec] in H.
   - inversion H; subst. apply stable_refl.
   - inversion H; subst. apply (alloc_stable (mkobj c (FProg 1 :: FOrig :: pre_tb k) (OSite 0) None)).
@@ -298,6 +302,10 @@ Proof.
     destruct r; inversion A; subst.
     + eapply stable_trans; [eassumption|]. eapply stable_trans; [eassumption|apply add_frame_stable].
     + eapply stable_trans; eassumption.
+  - destruct (with_same (FProg l) (fun s' st' => exec b s' st') s st) as [[[s3 st3] ob] o3] eqn:W.
+    inversion H; subst. eapply with_same_stable; [|eassumption].
+    intros; eapply IHb; eassumption.
+  - destruct (hstack st) as [|i rest]; inversion H; subst; [apply stable_refl|apply set_tb_stable].
 Qed.
 
 (* a body that does not call force_reraise()/capture() on its own context leaves what the context
@@ -306,7 +314,7 @@ Lemma exec_keeps_capture : forall b s st s' st' out,
   direct_free0 b = true -> exec b s st = (s', st', out) ->
   type_ s' = type_ s /\ value s' = value s /\ tb s' = tb s /\ slab s' = slab s.
 Proof.
-  induction b as [|c k|c k l|v|a IHa b IHb|a IHa h IHh|r0 l b IHb|r0 b IHb|l|l|p l b IHb|p a l];
+  induction b as [|c k|c k l|v|a IHa b IHb|a IHa h IHh|r0 l b IHb|r0 b IHb|l|l|p l b IHb|p a l|l b IHb|];
     intros s st s' st' out D H; cbn [exec] in H; cbn [direct_free0] in D; try discriminate.
   - inversion H; subst. auto.
   - inversion H; subst. auto.
@@ -327,6 +335,7 @@ Proof.
     destruct (with_exit _ _ _ _ _ _ _) as [[s2 st2] o2]. inversion H; subst. assumption.
   - destruct (match a with ACur => _ | ANew c m => _ | ANone => _ | AObj i => _ end) as [st1 x].
     destruct (do_filt_call p x s st1) as [st2 [j|]]; inversion H; subst; auto.
+  - destruct (hstack st) as [|i rest]; inversion H; subst; auto.
 Qed.
 
 (* ------------------------------------------------------------------ save_and_reraise_exception *)
@@ -337,9 +346,29 @@ Definition same_object (st st' : state) (o : nat) : Prop :=
 Lemma stable_same_object : forall st st' o, stable st st' -> o < next st -> same_object st st' o.
 Proof. intros st st' o [_ [_ O]] Ho. destruct (O o Ho) as [A [B _]]. split; assumption. Qed.
 
-(* the context as __enter__ leaves it when exception o is being handled *)
+(* the context as __enter__ leaves it when exception o is being handled: whatever the object held
+   before (a stale type_, an earlier capture) is overwritten; only the flag and the logger stay *)
+Definition reentered (s : sare) (st : state) (o : nat) : sare :=
+  mksare (reraise s) (Some (cls_of st o)) (Some o) (tb_of st o) (slab s).
 Definition entered (r0 : bool) (lab : N) (st : state) (o : nat) : sare :=
   mksare r0 (Some (cls_of st o)) (Some o) (tb_of st o) lab.
+
+Lemma sare_enter_any : forall wf s st o rest,
+  hstack st = o :: rest -> sare_enter wf s st = (reentered s st o, st, Normal).
+Proof.
+  intros wf s st o rest H. unfold sare_enter. rewrite capture_equiv.
+  unfold capture_hand. rewrite H. reflexivity.
+Qed.
+
+Lemma with_same_unfold_gen : forall wf block s st o rest,
+  hstack st = o :: rest ->
+  with_same wf block s st =
+  let '(s2, st2, out) := block (reentered s st o) st in
+  let '(s3, st3, out') := exit_hand wf s2 st2 out in (s3, st3, out, out').
+Proof.
+  intros wf block s st o rest H. unfold with_same. rewrite (sare_enter_any _ _ _ _ _ H).
+  destruct (block (reentered s st o) st) as [[s2 st2] out]. rewrite exit_equiv. reflexivity.
+Qed.
 
 Lemma with_sare_unfold : forall r0 lab wf b st o rest,
   hstack st = o :: rest ->
@@ -347,9 +376,8 @@ Lemma with_sare_unfold : forall r0 lab wf b st o rest,
   let '(s2, st2, out) := exec b (entered r0 lab st o) st in
   let '(s3, st3, out') := exit_hand wf s2 st2 out in (s3, st3, out, out').
 Proof.
-  intros r0 lab wf b st o rest H. unfold with_sare. rewrite (sare_enter_active _ _ _ _ _ _ H).
-  fold (entered r0 lab st o).
-  destruct (exec b (entered r0 lab st o) st) as [[s2 st2] out]. rewrite exit_equiv. reflexivity.
+  intros r0 lab wf b st o rest H.
+  exact (with_same_unfold_gen wf (fun s st => exec b s st) (sare_new r0 lab st) st o rest H).
 Qed.
 
 (* body completes: the exception active on entry is raised again — the same object, its traceback the
@@ -403,6 +431,58 @@ Proof.
   intros r0 lab wf b st o rest s3 st3 x out' HS W.
   rewrite (with_sare_unfold _ _ _ _ _ _ _ HS) in W.
   destruct (exec b (entered r0 lab st o) st) as [[s2 st2] out] eqn:E.
+  destruct (exit_hand wf s2 st2 out) as [[s4 st4] o4] eqn:X. inversion W; subst. clear W.
+  unfold exit_hand in X. inversion X; subst. clear X.
+  exists st2. split; [reflexivity|]. split; [reflexivity|]. split; [reflexivity|].
+  intro D. pose proof (exec_keeps_capture _ _ _ _ _ _ D E) as [Ht [Hv [Hb Hl]]]. cbn in Ht, Hv, Hb, Hl. auto.
+Qed.
+
+(* the same two facts when an EXISTING context object is entered (again): what counts is the exception active on
+   this, the latest, entry; whatever the object held from earlier use is irrelevant *)
+Lemma sare_reuse_normal_exit_lemma : forall wf b s st o rest s3 st3 out',
+  hstack st = o :: rest -> o < next st -> direct_free0 b = true ->
+  with_same wf (fun s st => exec b s st) s st = (s3, st3, Normal, out') ->
+  exists s2 st2,
+    exec b (reentered s st o) st = (s2, st2, Normal) /\ reraise s3 = reraise s2 /\
+    (reraise s2 = true ->
+       out' = Raised o /\ same_object st st3 o /\ logs st3 = logs st2 /\
+       exists k, (k = KVal \/ k = KWtb) /\
+                 tb_of st3 o = wf :: FHelper FnExit KCall :: FHelper FnForce k :: tb_of st o) /\
+    (reraise s2 = false -> out' = Normal /\ st3 = st2).
+Proof.
+  intros wf b s st o rest s3 st3 out' HS Ho D W.
+  rewrite (with_same_unfold_gen _ _ _ _ _ _ HS) in W.
+  destruct (exec b (reentered s st o) st) as [[s2 st2] out] eqn:E.
+  destruct (exit_hand wf s2 st2 out) as [[s4 st4] o4] eqn:X. inversion W; subst. clear W.
+  exists s2, st2. split; [reflexivity|].
+  pose proof (exec_keeps_capture _ _ _ _ _ _ D E) as [Ht [Hv [Hb _]]]. cbn in Ht, Hv, Hb.
+  pose proof (exec_stable _ _ _ _ _ _ E) as [Hn [_ HO]].
+  unfold exit_hand in X. destruct (reraise s2) eqn:R.
+  - unfold force_hand in X. rewrite Hv in X. inversion X; subst. clear X.
+    split; [cbn; exact R|]. split; [|discriminate]. intros _.
+    split; [reflexivity|].
+    destruct (raise_value_tb FnForce o (tb s2) st2) as [k [Hk Tk]].
+    split; [|split].
+    + apply stable_same_object; [|exact Ho].
+      eapply stable_trans; [exact (exec_stable _ _ _ _ _ _ E)|].
+      eapply stable_trans; [apply raise_value_stable|]. eapply stable_trans; apply add_frame_stable.
+    + cbn. apply raise_value_logs.
+    + exists k. split; [exact Hk|]. rewrite !tb_of_add_frame, Tk, Hb. reflexivity.
+  - inversion X; subst. split; [exact R|]. split; [discriminate|]. auto.
+Qed.
+
+Lemma sare_reuse_body_raises_lemma : forall wf b s st o rest s3 st3 x out',
+  hstack st = o :: rest ->
+  with_same wf (fun s st => exec b s st) s st = (s3, st3, Raised x, out') ->
+  exists st2,
+    exec b (reentered s st o) st = (s3, st2, Raised x) /\ out' = Raised x /\
+    st3 = (if reraise s3 then add_log (mklog (slab s3) (type_ s3) (value s3) (tb s3)) st2 else st2) /\
+    (direct_free0 b = true ->
+       slab s3 = slab s /\ type_ s3 = Some (cls_of st o) /\ value s3 = Some o /\ tb s3 = tb_of st o).
+Proof.
+  intros wf b s st o rest s3 st3 x out' HS W.
+  rewrite (with_same_unfold_gen _ _ _ _ _ _ HS) in W.
+  destruct (exec b (reentered s st o) st) as [[s2 st2] out] eqn:E.
   destruct (exit_hand wf s2 st2 out) as [[s4 st4] o4] eqn:X. inversion W; subst. clear W.
   unfold exit_hand in X. inversion X; subst. clear X.
   exists st2. split; [reflexivity|]. split; [reflexivity|]. split; [reflexivity|].
@@ -577,9 +657,7 @@ Lemma with_sare_unfold_gen : forall r0 lab wf block st o rest,
   let '(s2, st2, out) := block (entered r0 lab st o) st in
   let '(s3, st3, out') := exit_hand wf s2 st2 out in (s3, st3, out, out').
 Proof.
-  intros r0 lab wf block st o rest H. unfold with_sare. rewrite (sare_enter_active _ _ _ _ _ _ H).
-  fold (entered r0 lab st o).
-  destruct (block (entered r0 lab st o) st) as [[s2 st2] out]. rewrite exit_equiv. reflexivity.
+  intros r0 lab wf block st o rest H. exact (with_same_unfold_gen wf block (sare_new r0 lab st) st o rest H).
 Qed.
 
 Lemma raise_value_removed : forall fn i t st, removed (raise_value fn i t st) = removed st.
@@ -807,16 +885,15 @@ Qed.
 Lemma keeps_state_only : forall o T s s' st, keeps o T s st -> (value s' = Some o -> tb_suffix T (tb s')) -> keeps o T s' st.
 Proof. intros o T s s' st [K1 _] H. split; assumption. Qed.
 
-Lemma with_sare_keeps : forall o T r0 lab wf block st s3 st3 ob out s,
+Lemma with_same_keeps : forall o T wf block s st s3 st3 ob out,
   (forall s st s' st' x, o < next st -> keeps o T s st -> block s st = (s', st', x) -> keeps o T s' st' /\ stable st st') ->
   o < next st -> keeps o T s st ->
-  with_sare r0 lab wf block st = (s3, st3, ob, out) -> keeps o T s3 st3.
+  with_same wf block s st = (s3, st3, ob, out) -> keeps o T s3 st3.
 Proof.
-  intros o T r0 lab wf block st s3 st3 ob out s HB Ho K H. unfold with_sare in H.
-  unfold sare_enter in H. rewrite capture_equiv, sare_init_equiv in H.
-  destruct (capture_hand gen_enter_check (mksare r0 None None [] lab) st) as [[s1 st1] r] eqn:C.
-  assert (K0 : keeps o T (mksare r0 None None [] lab) st) by (destruct K as [K1 _]; split; [exact K1|cbn; discriminate]).
-  pose proof (capture_hand_keeps _ _ _ _ _ _ _ _ Ho K0 C) as K1.
+  intros o T wf block s st s3 st3 ob out HB Ho K H. unfold with_same in H.
+  unfold sare_enter in H. rewrite capture_equiv in H.
+  destruct (capture_hand gen_enter_check s st) as [[s1 st1] r] eqn:C.
+  pose proof (capture_hand_keeps _ _ _ _ _ _ _ _ Ho K C) as K1.
   pose proof (capture_hand_stable _ _ _ _ _ _ C) as [N1 _].
   destruct r as [j|].
   - inversion H; subst. destruct K1 as [A B]. split; [apply add_frame_suffix, add_frame_suffix; exact A|exact B].
@@ -827,6 +904,15 @@ Proof.
     destruct (exit_hand wf s2 st2 o2) as [[s4 st4] o4] eqn:X. inversion H; subst.
     eapply exit_hand_keeps; [|exact K2|exact X]. lia.
 Qed.
+Lemma with_sare_keeps : forall o T r0 lab wf block st s3 st3 ob out s,
+  (forall s st s' st' x, o < next st -> keeps o T s st -> block s st = (s', st', x) -> keeps o T s' st' /\ stable st st') ->
+  o < next st -> keeps o T s st ->
+  with_sare r0 lab wf block st = (s3, st3, ob, out) -> keeps o T s3 st3.
+Proof.
+  intros o T r0 lab wf block st s3 st3 ob out s HB Ho K H.
+  eapply (with_same_keeps o T); [exact HB|exact Ho| |exact H].
+  destruct K as [K1 _]. split; [exact K1|cbn; discriminate].
+Qed.
 
 Lemma keeps_push : forall o T s st i, keeps o T s st -> keeps o T s (push i st).
 Proof. intros o T s st i K. exact K. Qed.
@@ -836,10 +922,12 @@ Proof. intros o T s st K. exact K. Qed.
 (* Whatever the body does — K13 misuse included — an existing exception object never loses the traceback it
    had: T stays a suffix of o's traceback, and of the traceback any context saved for o.  Induction, no bound. *)
 Lemma exec_keeps_traceback : forall b o T s st s' st' out,
+  tamper_free b = true ->
   o < next st -> keeps o T s st -> exec b s st = (s', st', out) -> keeps o T s' st'.
 Proof.
-  induction b as [|c k|c k l|v|a IHa b IHb|a IHa h IHh|r0 l b IHb|r0 b IHb|l|l|p l b IHb|p a l];
-    intros o T s st s' st' out Ho K H; cbn [exec] in H.
+  induction b as [|c k|c k l|v|a IHa b IHb|a IHa h IHh|r0 l b IHb|r0 b IHb|l|l|p l b IHb|p a l|l b IHb|];
+    intros o T s st s' st' out TF Ho K H; cbn [exec] in H; cbn [tamper_free] in TF; try discriminate.
+  all: try (apply andb_true_iff in TF; destruct TF as [TFa TFb]).
   - inversion H; subst. exact K.
   - inversion H; subst. destruct K as [K1 K2]. split; [|exact K2].
     apply (alloc_suffix T (mkobj c (FProg 1 :: FOrig :: pre_tb k) (OSite 0) None)); assumption.
@@ -847,16 +935,16 @@ Proof.
     apply (alloc_suffix T (mkobj c (FProg l :: pre_tb k) (OSite l) None)); assumption.
   - inversion H; subst. exact K.
   - destruct (exec a s st) as [[s1 st1] o1] eqn:A.
-    pose proof (IHa _ _ _ _ _ _ _ Ho K A) as K1. pose proof (exec_stable _ _ _ _ _ _ A) as [N1 _].
+    pose proof (IHa _ _ _ _ _ _ _ TFa Ho K A) as K1. pose proof (exec_stable _ _ _ _ _ _ A) as [N1 _].
     destruct o1.
-    + eapply IHb; [|exact K1|exact H]. lia.
+    + eapply IHb; [exact TFb| |exact K1|exact H]. lia.
     + inversion H; subst. exact K1.
   - destruct (exec a s st) as [[s1 st1] o1] eqn:A.
-    pose proof (IHa _ _ _ _ _ _ _ Ho K A) as K1. pose proof (exec_stable _ _ _ _ _ _ A) as [N1 _].
+    pose proof (IHa _ _ _ _ _ _ _ TFa Ho K A) as K1. pose proof (exec_stable _ _ _ _ _ _ A) as [N1 _].
     destruct o1 as [|i].
     + inversion H; subst. exact K1.
     + destruct (exec h s1 (push i st1)) as [[s2 st2] o2] eqn:B. inversion H; subst.
-      apply keeps_pop. eapply IHh; [|apply keeps_push; exact K1|exact B]. cbn. lia.
+      apply keeps_pop. eapply IHh; [exact TFb| |apply keeps_push; exact K1|exact B]. cbn. lia.
   - destruct (with_sare r0 l (FProg l) (fun s' st' => exec b s' st') st) as [[[s3 st3] ob] o3] eqn:W.
     inversion H; subst.
     assert (K3 : keeps o T s3 st').
@@ -865,7 +953,7 @@ Proof.
     destruct K as [_ K2]. destruct K3 as [K31 _]. split; assumption.
   - destruct (exec b (sare_new r0 2 st) st) as [[s1 st1] o1] eqn:B. inversion H; subst.
     assert (K0 : keeps o T (sare_new r0 2 st) st) by (destruct K as [K1 _]; split; [exact K1|cbn; discriminate]).
-    destruct (IHb _ _ _ _ _ _ _ Ho K0 B) as [A _]. destruct K as [_ K2]. split; assumption.
+    destruct (IHb _ _ _ _ _ _ _ TF Ho K0 B) as [A _]. destruct K as [_ K2]. split; assumption.
   - rewrite do_force_equiv in H. destruct (force_hand s st) as [[s1 st1] i] eqn:F. inversion H; subst.
     destruct (force_hand_keeps _ _ _ _ _ _ _ Ho K F) as [A B]. split; [apply add_frame_suffix; exact A|exact B].
   - unfold do_capture_stmt in H. rewrite capture_equiv in H.
@@ -873,7 +961,7 @@ Proof.
     destruct (capture_hand_keeps _ _ _ _ _ _ _ _ Ho K C) as [A B].
     destruct r; inversion H; subst; split; try assumption. apply add_frame_suffix; exact A.
   - destruct (exec b s st) as [[s1 st1] o1] eqn:B.
-    pose proof (IHb _ _ _ _ _ _ _ Ho K B) as [A1 A2]. pose proof (exec_stable _ _ _ _ _ _ B) as [N1 _].
+    pose proof (IHb _ _ _ _ _ _ _ TF Ho K B) as [A1 A2]. pose proof (exec_stable _ _ _ _ _ _ B) as [N1 _].
     rewrite filt_exit_equiv in H. unfold filt_exit_hand in H.
     destruct o1 as [|i]; [inversion H; subst; split; assumption|].
     destruct (pv p _); inversion H; subst; try (split; assumption).
@@ -903,6 +991,10 @@ Proof.
     + inversion A; subst. split; [exact S1|exact K2].
     + inversion A; subst. split; [|exact K2].
       apply add_frame_suffix. apply (alloc_suffix T (pred_exc p FnFiltCall)); assumption.
+  - destruct (with_same (FProg l) (fun s' st' => exec b s' st') s st) as [[[s3 st3] ob] o3] eqn:W.
+    inversion H; subst.
+    eapply (with_same_keeps o T); [|exact Ho|exact K|exact W].
+    intros s0 st0 s0' st0' x Ho0 K0 E. split; [eapply IHb; eassumption|eapply exec_stable; eassumption].
 Qed.
 
 (* ------------------------------------------------------------------ the context object used again after its with block *)
@@ -979,18 +1071,20 @@ Qed.
 (* re-use after a with block, whatever its body (K13 misuse included) and outcome: the original traceback T
    is still at the end of what comes out *)
 Lemma sare_post_capture_force_lemma : forall r0 lab wf wfc wf' b st o rest s3 st3 ob out' T,
+  tamper_free b = true ->
   hstack st = o :: rest -> o < next st -> tb_suffix T (tb_of st o) ->
   with_sare r0 lab wf (fun s st => exec b s st) st = (s3, st3, ob, out') ->
   exists s1 s' st', do_capture_stmt wfc s3 st3 = (s1, st3, Normal) /\
                     do_force wf' s1 st3 = (s', st', Raised o) /\ same_object st st' o /\
                     tb_suffix T (tb_of st' o).
 Proof.
-  intros r0 lab wf wfc wf' b st o rest s3 st3 ob out' T HS Ho HT W.
+  intros r0 lab wf wfc wf' b st o rest s3 st3 ob out' T TF HS Ho HT W.
   assert (S3 : stable st st3) by (eapply with_sare_stable; [|exact W]; intros; eapply exec_stable; eassumption).
   assert (HS3 : hstack st3 = o :: rest) by (destruct S3 as [_ [H _]]; congruence).
   assert (K3 : keeps o T s3 st3).
   { eapply (with_sare_keeps o T _ _ _ _ _ _ _ _ _ (sare_blank 0)); [|exact Ho| |exact W].
-    - intros s0 st0 s0' st0' x Ho0 K0 E. split; [eapply exec_keeps_traceback; eassumption|eapply exec_stable; eassumption].
+    - intros s0 st0 s0' st0' x Ho0 K0 E.
+      split; [eapply exec_keeps_traceback; [exact TF|exact Ho0|exact K0|exact E]|eapply exec_stable; eassumption].
     - split; [exact HT|cbn; discriminate]. }
   destruct (capture_then_force_lemma wfc wf' s3 st3 o rest HS3) as [s1 [s' [st' [C [F [S Tb]]]]]].
   exists s1, s', st'. split; [exact C|]. split; [exact F|]. split.
@@ -1002,3 +1096,23 @@ Example sare_post_block_example :
   exists s3 st3, with_sare false 2 (FProg 2) (fun s st => exec (Try (RaiseNew mand_cls 0 10) Noop) s st)
                            (handling_orig mand_cls) = (s3, st3, Normal, Normal).
 Proof. eexists. eexists. vm_compute. reflexivity. Qed.
+
+
+(* ------------------------------------------------------------------ tampering with __traceback__ *)
+
+(* the body sets the handled exception's __traceback__ to None and re-raises it elsewhere; the with statement
+   still re-raises it with exactly the traceback captured on entry (this is what with_traceback(self.tb) is for) *)
+Definition tamper_body : body := Seq Tamper (Try (FilterCall nopred ACur 12) Noop).
+Example tamper_example :
+  direct_free0 tamper_body = true /\ tamper_free tamper_body = false /\
+  exists s3 st3, with_sare true 2 (FProg 2) (fun s st => exec tamper_body s st) (handling_orig plain_cls)
+                 = (s3, st3, Normal, Raised 0) /\
+                 tb_of st3 0 = FProg 2 :: FHelper FnExit KCall :: FHelper FnForce KWtb :: tb_of (handling_orig plain_cls) 0.
+Proof.
+  split; [reflexivity|]. split; [reflexivity|]. eexists. eexists. split; vm_compute; reflexivity.
+Qed.
+
+(* two instances of a class with a bound-method filter: each gets its own predicate *)
+Lemma filter_get_instances_lemma : forall (O : Type) (upred : O -> predspec) (o1 o2 : O),
+  filt_get upred o1 = upred o1 /\ filt_get upred o2 = upred o2.
+Proof. intros. split; reflexivity. Qed.
